@@ -126,6 +126,24 @@ def renumber(res, chain, number, icode=None):
     return mk_residue(res, atoms, label=None, auth=auth)
 
 
+def icode_siblings(st, rng, chain=None):
+    """the same atoms under identities that differ ONLY in the insertion code: runs of 2-3 consecutive residues
+    share chain and number (47, 47A, 47B as in tRNA numbering).  File order is kept and stays ascending in
+    (chain, number, icode).  Residues of every model get the same new identity pattern."""
+    out = []
+    ch = chain or (st.residues[0].chain if st.residues else "A") or "A"
+    num = rng.randint(1, 300)
+    i = 0
+    rs = list(st.residues)
+    while i < len(rs):
+        run = min(len(rs) - i, rng.choice([1, 2, 2, 3]))
+        for k in range(run):
+            out.append(renumber(rs[i + k], ch, num, [None, "A", "B"][k]))
+        i += run
+        num += rng.choice([1, 1, 2])
+    return mk_structure(out)
+
+
 # ----------------------------------------------------------------------------- rigid motions
 def quat_rotation(rng):
     """uniform random rotation matrix from a normalised Gaussian quaternion"""
